@@ -576,16 +576,30 @@ def m_aset(I, recv, a, k, node, kind):
             raise AnalysisError('set operation with unknown elements at %s' % norm(node)[:60])
         return [concrete(x) for x in seq]
     if name == 'add':
+        I.effect('mutate', node, {'obj': recv, 'op': 'set.add'})
         if not is_concrete(a[0]):
-            raise AnalysisError('set.add of an unknown element at %s' % norm(node)[:60])
+            # the set now also holds values the analysis does not know: membership in it is undecided from here on
+            recv.unknown = True
+            recv.taint = getattr(recv, 'taint', frozenset()) | tj(a[0])
+            return None
         if concrete(a[0]) not in recv.items:
             recv.items.append(concrete(a[0]))
         return None
     if name == 'update':
+        I.effect('mutate', node, {'obj': recv, 'op': 'set.update'})
         for v in a:
-            for x in elems(v):
-                if x not in recv.items:
-                    recv.items.append(x)
+            if isinstance(v, ASet):
+                seq_ = list(v.items)
+                if getattr(v, 'unknown', False):
+                    recv.unknown = True
+            else:
+                seq_ = M.iterate(I, v, node)
+            for x in seq_:
+                if not is_concrete(x):
+                    recv.unknown = True
+                    recv.taint = getattr(recv, 'taint', frozenset()) | tj(x)
+                elif concrete(x) not in recv.items:
+                    recv.items.append(concrete(x))
         return None
     if name in ('discard', 'remove'):
         x = concrete(a[0])
